@@ -1220,7 +1220,8 @@ def check_C14(tier, seed):
         })
     out.coverage["mismatches_outside_projection"] = other
     if fr.ws is not None:
-        trace_part(out, "C14", tier, progs, fr.ws, fr.batches, seed, sizes(tier, 30, 80), 60,
+        trace_part(out, "C14", tier, progs, fr.ws, fr.batches, seed,
+                   30 if tier == "quick" else max(10, min(80, 16000 // max(1, len(progs)))), 60,
                    lambda evs: [{k_: v for k_, v in e.items() if k_ not in ("tx",)} for e in evs],
                    "stream of an iterator-built lexer differs from the specification",
                    ctors=(0, 1, 2, 3))
